@@ -40,11 +40,14 @@ CFG = {
         "from_lsb0 empty slice at the top": r"^from_lsb0 b4 42949672\d\d hex: => ok",
     },
     "gaps": [
-        "C16_safe_f (DESIGN §8): the Safe_* side conditions (no truncated subtraction / shift / index out of range on well-formed values) are not stated per operation yet; absence of arithmetic panics is covered by the correspondence in the overflow-checking build profile only",
+        "C16_safe_* (DESIGN §8, lean/RoaringModel/Safe.lean + Lemmas/SafeLemmas.lean): for every `-`, `+=`, `<<`/`>>`, slice index / slice range and narrowing `as` cast of bitmap_store.rs (insert, remove, contains, insert_range, remove_range, contains_range, min, max, to_array_store, rank, select + the select() helper, remove_smallest, remove_biggest, op_bitmaps, |= / -= / ^= with an array incl. the i64 counter, intersection_len_*, BitmapIter next/next_back/advance_*), array_store/mod.rs (insert, remove, insert_range, remove_range, contains_range, to_bitmap_store incl. the debug unwrap, rank, select), container.rs (insert_range, remove_smallest, remove_biggest, ensure_correct_store), inherent.rs (binary_search indices, find_container_by_key, insert_range as a whole incl. the chunk loop, contains_range, range_cardinality, len, rank, select, remove_smallest, remove_biggest, the insert_range/remove_range counters), util.rs split/join, serialization.rs serialize_into/serialized_size, statistics.rs, and the treemap's split/join/len/rank/select/insert_range-over-an-existing-partition, the side condition is a decidable predicate Safe_* over the model state (file:line next to every conjunct) and is PROVED from BStore.Inv / Arr.Inv / Store.Inv / Bitmap.WF plus the integer type of the arguments (45 theorems C16_safe_*, each with a concrete example; several with a counterexample on an ill-formed value showing the predicate is not vacuous)",
+        "caller obligations that are not consequences of the receiver's invariant: ArrayStore::remove_smallest/remove_biggest need n <= len (rotate_left, len - n) and Container::remove_smallest/remove_biggest need n <= len (bits.len() - n); they are crate-private and C16_safe_removeSmallest / C16_safe_removeBiggest prove that the only callers (RoaringBitmap::remove_smallest/biggest) pass 0 < n < container.len() for every u64 argument",
+        "observation (not a reachable defect): the u64 sums of RoaringTreemap::len, ::rank(u64::MAX) and the counter of ::insert_range(..) reach exactly 2^64 for the one treemap holding all 2^64 values and overflow there (C16_safe_treemap_len_iff, C16_treemap_len_2p64_observation); that value needs 2^32 full partitions = 2^61 bytes, so it is excluded by the property's fits-in-memory clause; len/rank are proved safe for fewer than 2^32 partitions (C16_safe_treemap_len, C16_safe_treemap_rank), select and the 32-bit type unconditionally",
+        "not stated as Safe_* theorems: (1) the composition over the `while index < len` loop of RoaringBitmap::remove_range as ONE predicate (the pieces are there: the index is below len by the loop test, every container call gets a <= b <= u16::MAX so C16_safe_store applies, intermediate values are well-formed by C01, the counter by C16_safe_range_counters), likewise insert/remove/contains/push as compositions of C16_safe_search + C16_safe_store; (2) the binary operators' array-array merges (scalar.rs has no arithmetic besides slice iteration), MultiOps, from_lsb0_bytes (its panic is C16_lsb0_panics), the decoders (covered as err-never-panic by C13/C14) and the treemap iterators; (3) allocation sizes (Vec::with_capacity, n_bytes_* of statistics) — capacity dependent, not modelled. For these, absence of arithmetic panics rests on the differential runs with overflow checks enabled",
+        "the Safe_* predicates talk about the MODEL's intermediate values; that the model's expressions are the Rust expressions is the hand-written mirroring checked by the correspondence runs (both overflow-check settings)",
         "proved for well-formed values (shared Bitmap.WF) and arguments of the right integer type: every mutator is total in both build configurations and keeps well-formedness (C16_mutators_total, C16_history_total, from C01); range()/into_range() panic exactly on the two documented inputs (C16_range_panics, from C03); from_lsb0_bytes never panics for offset + 8*len <= 2^32 and, for a multiple-of-8 offset, panics exactly past 2^32 (C16_lsb0_panics, from C17); select/min/max return None exactly when there is no such element (C16_select_total, C16_min_max_total); Debug is total and equals the SPEC string (C16_debug_total, C16_debug_spec)",
-        "C16_ranges, C16_convertRange_ok/_error/_nonempty are proved without assumptions beyond bounds that fit u32",
-        "64-bit type (RoaringTreemap) and iterators: not covered by this profile (treemap / iter families)",
+        "C16_ranges, C16_convertRange_ok/_error/_nonempty are proved without assumptions beyond bounds that fit u32 (convert_range_to_inclusive uses checked_add/checked_sub resp. explicit Excluded(MAX)/Excluded(0) arms: the guards are explicit in the model)",
     ],
-    "level_text": "Theorems (Lean 4, kernel-checked) about the model: for every bound pair that convert_range_to_inclusive rejects, insert_range/remove_range/range_cardinality return 0, contains_range returns true and the bitmap is unchanged; the conversion fails exactly on the empty intervals (never on a non-empty one); Debug formatting is total. Absence of arithmetic panics is tied to the Rust source by running the property's argument table on generated values in two build profiles (overflow checks on: a panic is a difference; off: a wrapped value is a difference). Unbounded quantifier = theorem for the range part; the rest = sampled.",
-    "level_note": "Trusted: Lean kernel; the hand-written model mirrors the code (checked by correspondence on generated values only); totality of the remaining arithmetic (Safe_* predicates) is NOT yet a theorem — it rests on the differential runs with overflow checks enabled. 32-bit type only. See evidence coverage.proof_gaps.",
+    "level_text": "Theorems (Lean 4, kernel-checked) about the model: for every bound pair that convert_range_to_inclusive rejects, insert_range/remove_range/range_cardinality return 0, contains_range returns true and the bitmap is unchanged; the conversion fails exactly on the empty intervals (never on a non-empty one); Debug formatting is total; every arithmetic side condition of the stores, containers, 32-bit inherent API, serialization writer, statistics and treemap len/rank/select (decidable Safe_* predicates with file:line references) follows from well-formedness (C16_safe_*). Absence of arithmetic panics is additionally tied to the Rust source by running the property's argument table on generated values in two build profiles (overflow checks on: a panic is a difference; off: a wrapped value is a difference). Unbounded quantifier = theorem for the range part; the rest = sampled.",
+    "level_note": "Trusted: Lean kernel; the hand-written model mirrors the code (checked by correspondence on generated values only); the per-site arithmetic side conditions (Safe_* predicates, Safe.lean) are theorems for the stores, containers, the 32-bit inherent API, serialization writer, statistics and the treemap's len/rank/select (see coverage.proof_gaps for what is left to the differential runs with overflow checks enabled). See evidence coverage.proof_gaps.",
 }
